@@ -47,6 +47,12 @@ pub fn search(tier: &str, seed: u64, s: &mut Search) {
     for d in crate::c05::targeted(seed, "quick").into_iter().take(80) {
         docs.push((String::from_utf8_lossy(&d.data).to_string(), d.data, None));
     }
+    // twin documents: the same structure, sizes and byte lengths, different content - whatever is remembered
+    // from one document under a key that is not its content shows on the next one
+    let first_twin = docs.len();
+    for d in twins(&mut rng, if tier == "thorough" { 40 } else { 12 }) {
+        docs.push((d.clone(), d.into_bytes(), None));
+    }
     // ---- (1) baseline and repeated calls in this process
     let mut base: Vec<Option<(u64, u64)>> = vec![];
     for (key, data, path) in &docs {
@@ -57,6 +63,15 @@ pub fn search(tier: &str, seed: u64, s: &mut Search) {
             s.finding("oracle:C06:repeated-call-differs", &format!("two calls in one process: {:?} vs {:?}", a, b), key);
         }
         base.push(a);
+    }
+    // ---- (1b) the same documents alone on a fresh thread (no thread-local history)
+    for i in first_twin..docs.len() {
+        let (key, data, path) = &docs[i];
+        let alone = std::thread::scope(|sc| sc.spawn(|| fingerprint(data, path.as_deref())).join().unwrap_or(None));
+        s.case("fresh-thread", key, alone.is_some());
+        if alone != base[i] {
+            s.finding("oracle:C06:result-depends-on-earlier-documents", &format!("alone on a fresh thread: {:?}, after the other documents on the main thread: {:?}", alone, base[i]), key);
+        }
     }
     // ---- (2) threads: one shared tree rendered concurrently while other threads parse other documents
     let fontdb = crate::corpus::fontdb();
@@ -129,4 +144,97 @@ pub fn search(tier: &str, seed: u64, s: &mut Search) {
             }
         }
     }
+}
+
+fn crc32(data: &[u8]) -> u32 {
+    let mut c: u32 = !0;
+    for b in data {
+        c ^= *b as u32;
+        for _ in 0..8 {
+            c = if c & 1 != 0 { (c >> 1) ^ 0xEDB88320 } else { c >> 1 };
+        }
+    }
+    !c
+}
+
+/// an uncompressed (stored deflate blocks) RGBA PNG: the encoded length depends on the size only
+pub fn stored_png(w: u32, h: u32, rgba: [u8; 4]) -> Vec<u8> {
+    let mut raw = vec![];
+    for y in 0..h {
+        raw.push(0u8);
+        for x in 0..w {
+            // a little structure, so that a swapped image is visible whatever the colours
+            let k = if (x / 8 + y / 8) % 2 == 0 { rgba } else { [rgba[2], rgba[0], rgba[1], rgba[3]] };
+            raw.extend_from_slice(&k);
+        }
+    }
+    let mut z = vec![0x78, 0x01];
+    let mut chunks = raw.chunks(65535).peekable();
+    while let Some(c) = chunks.next() {
+        z.push(if chunks.peek().is_none() { 1 } else { 0 });
+        z.extend_from_slice(&(c.len() as u16).to_le_bytes());
+        z.extend_from_slice(&(!(c.len() as u16)).to_le_bytes());
+        z.extend_from_slice(c);
+    }
+    let (mut a, mut b) = (1u32, 0u32);
+    for v in &raw {
+        a = (a + *v as u32) % 65521;
+        b = (b + a) % 65521;
+    }
+    z.extend_from_slice(&((b << 16) | a).to_be_bytes());
+    let mut out = b"\x89PNG\r\n\x1a\n".to_vec();
+    let mut chunk = |ty: &[u8; 4], body: &[u8]| {
+        out.extend_from_slice(&(body.len() as u32).to_be_bytes());
+        let mut t = ty.to_vec();
+        t.extend_from_slice(body);
+        out.extend_from_slice(&t);
+        out.extend_from_slice(&crc32(&t).to_be_bytes());
+    };
+    let mut ihdr = vec![];
+    ihdr.extend_from_slice(&w.to_be_bytes());
+    ihdr.extend_from_slice(&h.to_be_bytes());
+    ihdr.extend_from_slice(&[8, 6, 0, 0, 0]);
+    chunk(b"IHDR", &ihdr);
+    chunk(b"IDAT", &z);
+    chunk(b"IEND", &[]);
+    out
+}
+
+fn twins(rng: &mut Rng, pairs: usize) -> Vec<String> {
+    let cols: [[u8; 4]; 6] = [[255, 0, 0, 255], [0, 0, 255, 255], [0, 160, 0, 255], [250, 200, 0, 255], [0, 0, 0, 255], [200, 0, 200, 128]];
+    let names = ["#f00", "#00f", "#0a0", "#fc0", "#000", "#c0c"];
+    let mut out = vec![];
+    for k in 0..pairs {
+        let i = rng.below(6) as usize;
+        let j = (i + 1 + rng.below(5) as usize) % 6;
+        for c in [i, j] {
+            let doc = match k % 4 {
+                0 => {
+                    // a raster image: equal encoded length, different pixels
+                    let side = *rng.pick(&[8u32, 24, 48, 64]);
+                    let _ = side;
+                    let side = [8u32, 24, 48, 64][k / 4 % 4];
+                    let png = crate::c17::b64(&stored_png(side, side, cols[c]));
+                    format!(r#"<svg xmlns="http://www.w3.org/2000/svg" xmlns:xlink="http://www.w3.org/1999/xlink" width="64" height="64"><image width="64" height="64" xlink:href="data:image/png;base64,{}"/></svg>"#, png)
+                }
+                1 => {
+                    // a nested SVG image
+                    let inner = format!(r#"<svg xmlns="http://www.w3.org/2000/svg" width="40" height="40"><rect width="40" height="40" fill="{}"/></svg>"#, names[c]);
+                    format!(r#"<svg xmlns="http://www.w3.org/2000/svg" xmlns:xlink="http://www.w3.org/1999/xlink" width="64" height="64"><image width="64" height="64" xlink:href="data:image/svg+xml;base64,{}"/></svg>"#, crate::c17::b64(inner.as_bytes()))
+                }
+                2 => format!(
+                    // definitions with the same ids: gradient, pattern, clip, mask, filter
+                    r##"<svg xmlns="http://www.w3.org/2000/svg" width="64" height="64"><defs><linearGradient id="g"><stop offset="0" stop-color="{0}"/><stop offset="1" stop-color="#fff"/></linearGradient><pattern id="p" width="8" height="8" patternUnits="userSpaceOnUse"><rect width="4" height="4" fill="{0}"/></pattern><filter id="f"><feFlood flood-color="{0}" flood-opacity="0.5"/><feComposite in2="SourceGraphic" operator="over"/></filter><mask id="m"><rect width="64" height="32" fill="{0}"/></mask></defs><rect width="64" height="20" fill="url(#g)"/><rect y="22" width="64" height="20" fill="url(#p)"/><rect y="44" width="30" height="20" fill="#888" filter="url(#f)"/><rect x="34" y="44" width="30" height="20" fill="#888" mask="url(#m)"/></svg>"##,
+                    names[c]
+                ),
+                _ => format!(
+                    // text of the same length
+                    r##"<svg xmlns="http://www.w3.org/2000/svg" width="64" height="64"><text x="2" y="30" font-family="Noto Sans" font-size="16" fill="{}">{}</text></svg>"##,
+                    names[c], ["Abcd", "Wxyz", "Mini", "Oooo", "Tttt", "Hjkl"][c]
+                ),
+            };
+            out.push(doc);
+        }
+    }
+    out
 }
